@@ -412,8 +412,9 @@ Definition prop_ok_C09_svc (case trace : list N) : bool :=
              tag 1 report_substream_open(conn a, protocol b, direction c = 0 inbound | id+1)
                  2 report_substream_open_failure(conn a, protocol b, id c)
                  3 report_connection_established(conn a; b = bit mask of the protocols polled
-                   before the first dead one — only meaningful when a protocol is dead; the
-                   harness fills it in from the table order of the run)
+                   before the first dead one, filled in by the harness from the table order of
+                   the run — read only by the pre-fix variant of the model, the repaired function
+                   does not depend on the order)
                  4 report_connection_closed(conn a)    5 protocol a receives up to b events
                  6 protocol a drops its receiver
      trace : 2 (code got done qlens nbusy)*
@@ -495,8 +496,8 @@ Record rost := mkRO { ro_acc : list (list triple); ro_del : list (list triple); 
                       ro_last : list N; ro_ok : bool;
                       ro_dead : list N;          (* protocols whose receiver is gone *)
                       ro_closing : list N;       (* connections whose pending report is "closed" *)
-                      ro_leak : bool;            (* F-C07b: a failed "established" reached a protocol *)
-                      ro_gone : list N }.        (* connections given up after a failed "established" *)
+                      ro_leak : bool;            (* unused since fix 2c7c81a (F-C07b) *)
+                      ro_gone : list N }.        (* unused since fix 2c7c81a *)
 Definition app_at (n : nat) (x : list triple) (l : list (list triple)) : list (list triple) :=
   upd n (fun old => old ++ x) l.
 Definition rjudge_step (nproto cap : nat) (o : rost) (op : dop) (ob : rstepobs) : rost :=
@@ -512,7 +513,7 @@ Definition rjudge_step (nproto cap : nat) (o : rost) (op : dop) (ob : rstepobs) 
     | DBase (RSubOpen c p _) | DBase (RSubFail c p _) =>
         if is_busy c then rs_code ob =? 2
         else if known p && negb (dead p) then started else rs_code ob =? 3
-    | DEst c _ => if is_busy c then rs_code ob =? 2 else if anydead then rs_code ob =? 3 else started
+    | DEst c _ => if is_busy c then rs_code ob =? 2 else started     (* never fails, dead protocols are skipped *)
     | DBase (RClosed c) =>
         if is_busy c then rs_code ob =? 2 else if anydead then (rs_code ob =? 1) || (rs_code ob =? 3) else started
     | DBase (RDrain _ _) => rs_code ob =? 0
@@ -530,11 +531,8 @@ Definition rjudge_step (nproto cap : nat) (o : rost) (op : dop) (ob : rstepobs) 
     | DBase (RSubFail c p i) =>
         if started then app_at (N.to_nat p) [(4, 0, i)] (ro_acc o) else ro_acc o
     | DEst c m =>
-        if free c then
-          if anydead
-          then mapi (fun i a => if N.testbit m (N.of_nat i) && negb (dead (N.of_nat i)) && room i
-                                then a ++ [(1, c, 0)] else a) O (ro_acc o)
-          else if started then map (fun a => a ++ [(1, c, 0)]) (ro_acc o) else ro_acc o
+        if free c && started
+        then mapi (fun i a => if dead (N.of_nat i) then a else a ++ [(1, c, 0)]) O (ro_acc o)
         else ro_acc o
     | DBase (RClosed c) =>
         if free c && ((rs_code ob =? 0) || (rs_code ob =? 1) || (rs_code ob =? 3))
@@ -542,13 +540,7 @@ Definition rjudge_step (nproto cap : nat) (o : rost) (op : dop) (ob : rstepobs) 
         else ro_acc o
     | _ => ro_acc o
     end in
-  let leak' :=
-    match op with
-    | DEst c m =>
-        free c && anydead &&
-        existsb (fun i => N.testbit m (N.of_nat i) && negb (dead (N.of_nat i)) && room i) (seq 0 nproto)
-    | _ => false
-    end in
+  let leak' := false in
   let del' := match op with
               | DBase (RDrain p _) => app_at (N.to_nat p) (rs_got ob) (ro_del o)
               | _ => ro_del o
@@ -581,7 +573,7 @@ Definition rjudge_step (nproto cap : nat) (o : rost) (op : dop) (ob : rstepobs) 
     list_eqb (fun d a => prefix_b d a) del'' acc'' && (Nat.eqb (length del'') (length acc'')) &&
     forallb (fun q => q <=? N.of_nat cap) (rs_qlens ob) &&
     (rs_busy ob =? N.of_nat (length busy2)) in
-  let gone' := match op with DEst c _ => if free c && anydead then c :: ro_gone o else ro_gone o | _ => ro_gone o end in
+  let gone' := ro_gone o in
   mkRO acc'' del'' busy2 (rs_qlens ob) (ro_ok o && ok) dead' closing2 (ro_leak o || leak') gone'.
 Fixpoint rjudge (nproto cap : nat) (o : rost) (ops : list dop) (obs : list rstepobs) : rost :=
   match ops, obs with
@@ -623,10 +615,8 @@ Definition report_ok (case trace : list N) : bool :=
   | None, [0] => true
   | _, _ => report_sound case trace && match rjudged case trace with Some o => negb (ro_leak o) | None => false end
   end.
-(* known class 1 (F-C07b seen from the protocols): the only thing wrong is that leak *)
-Definition report_known (case trace : list N) : N :=
-  if report_sound case trace && match rjudged case trace with Some o => ro_leak o | None => false end
-  then 1 else 0.
+(* no known class any more: F-C07b is repaired (2c7c81a) *)
+Definition report_known (case trace : list N) : N := 0.
 
 (* ====================================================================================
    composed (case kind 3): real ProtocolSets feed one real TransportService through its real,
